@@ -3,7 +3,14 @@ package main
 
 import (
 	"verifharness/lib"
+	_ "verifharness/props/c01"
+	_ "verifharness/props/c02"
+	_ "verifharness/props/c03"
 	_ "verifharness/props/c05"
+	_ "verifharness/props/c07"
+	_ "verifharness/props/c10"
+	_ "verifharness/props/c12"
+	_ "verifharness/props/c14"
 )
 
 func main() { lib.Main() }
